@@ -98,6 +98,12 @@ func init() {
 	}
 }
 
+// slotErr is a multi-error that keeps nil slots in what Unwrap() []error returns.
+type slotErr struct{ errs []error }
+
+func (s *slotErr) Error() string   { return fmt.Sprintf("slots%v", s.errs) }
+func (s *slotErr) Unwrap() []error { return s.errs }
+
 // Build returns the canonical Go error for the description.
 func (d ErrD) Build() error {
 	regMu.Lock()
@@ -148,7 +154,18 @@ func (d ErrD) build() error {
 		for i, s := range d.Sub {
 			es[i] = s.build()
 		}
-		e = errors.Join(es...)
+		// errors.Join drops nil entries; a multi-error of the caller's own may keep them (one slot per shard, say): half of
+		// the joined descriptions are built as such a value, with nil slots before, between and after the real ones --
+		// errors.Is and the library's type matching skip nil slots, so the description (the non-nil ones) is the same
+		if len(key)%2 == 0 {
+			slots := []error{nil}
+			for _, x := range es {
+				slots = append(slots, x, nil)
+			}
+			e = &slotErr{errs: slots}
+		} else {
+			e = errors.Join(es...)
+		}
 	case "CustomIs":
 		e = &CustomIsErr{N: d.A, Target: ErrD{K: "Sent", A: d.B}.build()}
 	case "Exceeded":
